@@ -71,6 +71,14 @@ func (fr *frame) loopTouched(li *loopInfo) (names map[string]bool, all bool) {
 			}
 			visitFn(f, bl, depth+1)
 		default:
+			if cl, ok := fr.vals[c.Value].(*Closure); ok && depth < 3 {
+				bl := map[*ssa.BasicBlock]bool{}
+				for _, b := range cl.Fn.Blocks {
+					bl[b] = true
+				}
+				visitFn(cl.Fn, bl, depth+1)
+				return
+			}
 			// dynamic call: union over candidates
 			cands := fc.e.dynCandidates(c.Value.Type())
 			if len(cands) == 0 {
@@ -454,7 +462,25 @@ func (fr *frame) loopEnv(li *loopInfo, st *State, phis map[*ssa.Phi]Term) *Env {
 	fc := fr.fc
 	env := fc.contractEnv(fc.c, fr.fn, nil, st, fr.old)
 	env.fr = fr
+	callerVars := env.vars
+	if !fr.top {
+		// a loop of an inlined callee: names are the callee's variables first, the caller's parameters second
+		env.vars = map[string]CVal{}
+		if fr.fn.Pkg != nil {
+			env.pkg = fr.fn.Pkg.Pkg.Path()
+		}
+	}
 	env.lookup = func(name string) (CVal, bool) {
+		if !fr.top {
+			for _, p := range fr.fn.Params {
+				if p.Name() == name {
+					if t, ok := fr.vals[p].(Term); ok {
+						return CVal{t, withReg(p.Type(), fc.e.regionOf(p))}, true
+					}
+				}
+			}
+			defer func() {}()
+		}
 		if name == "$i" {
 			for phi, v := range phis {
 				if phi.Comment == "rangeindex" {
@@ -504,7 +530,15 @@ func (fr *frame) loopEnv(li *loopInfo, st *State, phis map[*ssa.Phi]Term) *Env {
 				return CVal{v, withReg(phi.Type(), fc.e.regionOf(phi))}, true
 			}
 		}
-		return fr.lookupVar(name, li.header)
+		if v, ok := fr.lookupVar(name, li.header); ok {
+			return v, true
+		}
+		if !fr.top {
+			if v, ok := callerVars[name]; ok {
+				return v, true
+			}
+		}
+		return CVal{}, false
 	}
 	return env
 }
